@@ -110,7 +110,8 @@ def serializer_terms(crate, lexpr):
     for f in fns:
         S = sim.Sim([crate], hooks={"call": ser_hook(crate)}, inline=inl, max_depth=4, max_paths=2000)
         try:
-            paths = S.run(f)
+            cargs, cmap = _collector_self(crate, f, inl)
+            paths = S.run(f, args=cargs)
         except sim.Limit:
             out[f.path] = "inexact"
             continue
@@ -130,9 +131,71 @@ def serializer_terms(crate, lexpr):
             stores = [e for e in p.events if e[0] == "store" and isinstance(e[1], Opq) and e[1].root == "self"]
             if stores:
                 desc += " storing " + "; ".join("%s := %s" % (_field(crate, f, e[1]), fmt(e[2])) for e in stores)
-            terms.add(_canon_params(f, _canon_fields(crate, f, desc)))
+            desc = _canon_fields(crate, f, desc)
+            for a, b in cmap.items():
+                desc = desc.replace(a, b)
+            terms.add(_canon_params(f, desc))
         out[f.path] = " | ".join(sorted(terms)) if terms else "(no normal return)"
     return out
+
+
+COMPOUND_CTOR = {"serde::ser::SerializeSeq": "serialize_seq", "serde::ser::SerializeTuple": "serialize_tuple",
+                 "serde::ser::SerializeTupleStruct": "serialize_tuple_struct",
+                 "serde::ser::SerializeTupleVariant": "serialize_tuple_variant", "serde::ser::SerializeMap": "serialize_map",
+                 "serde::ser::SerializeStruct": "serialize_struct", "serde::ser::SerializeStructVariant": "serialize_struct_variant"}
+
+
+def _collector_self(crate, f, inl):
+    """One collector type serving several compound kinds (`Collector { shape, items, .. }` implementing SerializeSeq ..
+    SerializeStructVariant) is told apart by a field of a private enum type that the `serialize_*` constructor sets.
+    A method of such a type is evaluated on a `self` whose enum-typed fields hold what serde's matching constructor
+    (`serialize_map` for `SerializeMap`, ..) puts there; everything else about `self` stays symbolic."""
+    ctor_name = COMPOUND_CTOR.get(f.impl_trait or "")
+    a = crate.adts.get(f.self_ty or "")
+    if ctor_name is None or not a or a.get("kind") != "struct" or f.arg_count < 1 or not f.path.endswith("::end"):
+        return {}, {}
+    fields = a["variants"][0]["fields"]
+    enum_i = [i for i, fl in enumerate(fields) if fl["ty"] in crate.adts and crate.adts[fl["ty"]].get("kind") == "enum"]
+    if not enum_i:
+        return {}, {}
+    ctor = crate.fn(SER + ctor_name)
+    if ctor is None:
+        return {}, {}
+    S = sim.Sim([crate], hooks={"call": ser_hook(crate)}, inline=inl, max_depth=4, max_paths=500)
+    try:
+        made = [p.ret for p in S.run(ctor) if p.end == "return" and isinstance(p.ret, Adt) and p.ret.variant == 0]
+    except sim.Limit:
+        return {}, {}
+    vals = {}
+    for r in made:
+        obj = r.fields[0] if r.fields else None
+        if not (isinstance(obj, Adt) and obj.adt == f.self_ty and len(obj.fields) == len(fields)):
+            return {}, {}
+        for i in enum_i:
+            v = obj.fields[i]
+            if not isinstance(v, Adt):
+                return {}, {}
+            if i in vals and (vals[i].variant != v.variant):
+                return {}, {}
+            vals[i] = v
+    if not vals:
+        return {}, {}
+    # what the constructor stored inside the variant (a variant name handed to it) is a field of `self` for the method
+    cmap = {}
+    k = 0
+    for i, v in list(vals.items()):
+        ea = crate.adts[fields[i]["ty"]]
+        var = [x for x in ea["variants"] if x["idx"] == v.variant]
+        pay = []
+        for j, _x in enumerate(v.fields):
+            k += 1
+            pay.append(Opq("self", ("payload%d" % k,)))
+            pty = var[0]["fields"][j]["ty"] if var and j < len(var[0]["fields"]) else "?"
+            cmap["$self.payload%d" % k] = "$self<%s>" % pty.replace("lexpr::", "")
+        vals[i] = Adt(v.adt, v.variant, pay, v.vname)
+    me = Adt(f.self_ty, 0, [vals[i] if i in vals else Opq("self", (fl["name"],)) for i, fl in enumerate(fields)])
+    by_ref = f.local_ty(1).startswith("&")
+    return ({1: Ref([me], 0, ()) if by_ref else me}, cmap)
 
 
 def _self_adt(crate, fn):
